@@ -198,6 +198,21 @@ def run(ctx):
     retv = False
     for bb, st in L.success_returns(b):
         retv = named(b.expr(st['r']['ops'][0]), 'best_nodes')
+    # every Ok(..) hands back the vector this lookup filled (the one the final sort works on): a result taken from anywhere
+    # else — a cache of an earlier lookup, the local answer — names peers that did not answer during THIS lookup
+    res_cls = set()
+    for c in sorts:
+        if c.args and 'p' in c.args[0]:
+            res_cls |= L.alias_of(b, [c.args[0]['p'][0]])
+    foreign = []
+    for bb, st in L.success_returns(b):
+        ops = [o for o in st['r']['ops'] if 'p' in o]
+        if not ops or not (L.alias_of(b, [ops[0]['p'][0]]) & res_cls or L.touches(b, b.expr(ops[0]), res_cls)):
+            foreign.append((bb, st))
+    ctx.ob('RESULT', 'ok-returns-this-lookups-vector', bool(res_cls) and not foreign, b.where(foreign[0][1].get('ln') if foreign else None),
+           'every Ok(..) returns the vector filled and sorted by this lookup' if not foreign else
+           'an Ok(..) return (line %s) hands back %s, not the vector this lookup filled: the caller gets peers that did not answer during this lookup' % (
+               foreign[0][1].get('ln'), b.expr(foreign[0][1]['r']['ops'][0]).brief(80) if foreign[0][1]['r']['ops'] else '?'), entry=MGR + '::find_closest_nodes_network')
     ctx.ob('RESULT', 'sorted-then-truncated', okord and cmpd and retv, b.where(),
            'Ok(best_nodes) (%s) is dominated by sort_by(compare_node_distance) (%s) then truncate(count) (%s)' % (retv, cmpd, okord))
     cn = prog.body(MGR + '::compare_node_distance')
@@ -239,6 +254,20 @@ def run(ctx):
                ('loop exit guarded by %s: %s%s' % (what, k, note)) if ok else
                ('the lookup stops on `%s` while the candidate queue may be non-empty: peers it learned of (possibly closer than the farthest returned node) are left unqueried' % what))
     ctx.floor('EXIT-GUARD', 3)
+
+    # the queue of a lookup / get is seeded from the node's own answer (find_closest_nodes_local): a known peer withheld from
+    # that answer is never queried, so the C02 rules about which entries the local answer may leave out are evaluated here too
+    from props import c02 as C02
+    import runner as _runner
+    sub = _runner.Ctx('C02', prog, ctx.tier, ctx.progs)
+    try:
+        C02.run(sub)
+        for o in sub.obls:
+            if o.key.startswith('local-answer:skip-reason') or o.key == 'local-answer:skip-reasons-closed':
+                ctx.ob('LOCAL-ANSWER', o.key, o.ok, o.where, o.detail, entry=o.entry)
+    except Exception as e:  # pragma: no cover - fail closed
+        ctx.ob('LOCAL-ANSWER', 'local-answer:rules-ran', False, '-', 'the local-answer rules could not be evaluated: %s' % e)
+    ctx.floor('LOCAL-ANSWER', 1)
 
 
 def _from_call(b, op, rx):
